@@ -259,8 +259,11 @@ def _run_unit(ccls, case_name, case, res, goal_rlimit):
         I = Interp(path, callee_contracts=subs, codec_tables=codec_tables() if callable(codec_tables) else codec_tables)
         I.loop_specs = {k: v for k, v in loops.items() if isinstance(k, str)}
         I.case = case
+        I.rely = list(getattr(ccls, 'rely', []) or [])
+        I.top_frame = None
         I.unit_label = label
         frame = Frame(fn.__globals__, defcls, None, info)
+        I.top_frame = frame
         args = {}
         for p in params:
             if p not in specs:
@@ -291,11 +294,11 @@ def _run_unit(ccls, case_name, case, res, goal_rlimit):
                 path.assume(h)
         # preconditions
         for name, f in requires:
-            v = I.call_value(f, bind_by_name(f, ns), {})
+            v = I.spec_call(f, bind_by_name(f, ns))
             path.assume(I.truthy(v))
         raise_conds = {}
         for name, f in raises_fn:
-            d = I.call_value(f, bind_by_name(f, ns), {})
+            d = I.spec_call(f, bind_by_name(f, ns))
             cell = path.cell(d)
             for k, c in cell.d.items():
                 t = I.truthy(c)
@@ -323,7 +326,7 @@ def _run_unit(ccls, case_name, case, res, goal_rlimit):
         ns2 = dict(ns)
         ns2["result"] = value
         for name, f in ensures:
-            v = I.call_value(f, bind_by_name(f, ns2), {})
+            v = I.spec_call(f, bind_by_name(f, ns2))
             cell = path.cell(v) if isinstance(v, Ref) else None
             if isinstance(cell, DictCell):
                 for k, c in cell.d.items():
@@ -410,10 +413,25 @@ def replay(ccls, case, model):
     for name, f in contract_functions(ccls, "raises"):
         raise_conds.update(f(*bind_by_name(f, ns)))
     outcome, value = "return", None
-    try:
-        value = fn(*[args[p] for p in params])
-    except Exception as exc:  # noqa
-        outcome, value = "raise", exc
+    box = {}
+
+    def _call():
+        try:
+            box["value"] = fn(*[args[p] for p in params])
+        except BaseException as exc:  # noqa
+            box["exc"] = exc
+
+    import threading as _th
+    th = _th.Thread(target=_call, daemon=True)
+    th.start()
+    th.join(getattr(ccls, "replay_timeout", 5.0))
+    if th.is_alive():
+        return {"status": "blocked", "why": "the real function did not return within the replay timeout (it waits for "
+                "another thread; the environment of the counter-model cannot be replayed by a plain call)", "inputs": shown}
+    if "exc" in box:
+        outcome, value = "raise", box["exc"]
+    else:
+        value = box.get("value")
     failed = []
     if outcome == "raise":
         declared = [k for k in raise_conds if isinstance(value, k)]
@@ -431,8 +449,8 @@ def replay(ccls, case, model):
             try:
                 r = f(*bind_by_name(f, ns2))
             except Exception as exc:
-                failed.append(f"{name}: evaluation raised {type(exc).__name__}: {exc}")
-                continue
+                return {"status": "spec-error", "why": f"{name}: concrete evaluation of the contract raised {type(exc).__name__}: {exc}",
+                        "inputs": shown}
             if isinstance(r, dict):
                 failed.extend(f"{name}.{k}" for k, c in r.items() if not c)
             elif not r:
